@@ -539,3 +539,45 @@ func verifLemmaXMLObjectRoundTrip(data []byte) []byte {
 	}
 	return out
 }
+
+// ---- gob transport (C14)
+
+func verifLemmaSwaggerGob(s Swagger) (Swagger, error, error) {
+	b, err := s.GobEncode()
+	var out Swagger
+	if err != nil {
+		return out, err, nil
+	}
+	err2 := out.GobDecode(b)
+	return out, nil, err2
+}
+
+func verifLemmaOperationGob(o Operation) (Operation, error, error) {
+	b, err := o.GobEncode()
+	var out Operation
+	if err != nil {
+		return out, err, nil
+	}
+	err2 := out.GobDecode(b)
+	return out, nil, err2
+}
+
+func verifLemmaSwaggerPropsGob(o SwaggerProps) (SwaggerProps, error, error) {
+	b, err := o.GobEncode()
+	var out SwaggerProps
+	if err != nil {
+		return out, err, nil
+	}
+	err2 := out.GobDecode(b)
+	return out, nil, err2
+}
+
+func verifLemmaOperationPropsGob(o OperationProps) (OperationProps, error, error) {
+	b, err := o.GobEncode()
+	var out OperationProps
+	if err != nil {
+		return out, err, nil
+	}
+	err2 := out.GobDecode(b)
+	return out, nil, err2
+}
